@@ -13,8 +13,9 @@ RULE = ("JSON-like values, depth <= 5: containers of length 0,1,2,3,5,12,30,45,7
         "whose one-line rendering is steered to 185..215 columns (the one-line limit is 200) and whose element "
         "lines straddle 150 columns (the wrap limit), each placed at nesting offsets 0..10 by wrapping it into "
         "dicts/lists; element widths 1-9; strings without quote/backslash/control characters but with , : [ ] { } "
-        "blanks and non-ASCII letters; ints up to 10^20, negative numbers, floats incl. exponent forms, "
-        "booleans, None, empty containers; Python mode also int keys mixed with str keys. Both modes, no_color. "
+        "blanks and non-ASCII letters incl. characters outside the BMP; ints up to 10^20, negative numbers, floats incl. exponent forms, "
+        "booleans, None, empty containers; Python mode also int keys mixed with str keys. Both modes, no_color, on long-lived printers that in 30% of the cases rendered "
+        "the same value in colour just before. "
         "Oracle: json.loads / ast.literal_eval gives an equal value with equal types at every position, keys in "
         "sorted order (numbers before strings) at every level, line iteration joined by newline equals the "
         "whole text. Non-trivial = output containing a wrapped simple list (>= 2 element lines) or a one-line "
@@ -36,7 +37,7 @@ LEVEL_TEXT = ("Runtime exploration with a round-trip oracle (print with the real
 LEVEL_NOTE = "trusts json.loads and ast.literal_eval; depth <= 5, containers <= 120 elements"
 TECHNIQUE = "runtime monitoring: print/parse round-trip oracle steered to layout thresholds"
 
-CHARS = "abc xyzé,:[]{}中 '"
+CHARS = "abc xyzé,:[]{}中 '\U0001F600\U0001D4B3"
 
 
 def gen_str(rng, n=None):
@@ -142,12 +143,24 @@ def typed(o):
     return (type(o).__name__, repr(o))
 
 
+_PRINTERS = {}
+
+
 def judge(ctx, obj, jm, case):
     ctx.evaluated()
-    pp = PrettyPrinter(fmt_json=jm)
+    # long-lived printers (as the module-level `pp` of the package), sometimes used for a coloured
+    # rendering of the same value first
+    pp = _PRINTERS.get(jm)
+    if pp is None or case.get("fresh_printer"):
+        pp = _PRINTERS[jm] = PrettyPrinter(fmt_json=jm)
     try:
-        txt = pp(obj, no_color=True).plain_text()
-        lines = [l.plain_text() for l in pp(obj, no_color=True)]
+        if case.get("coloured_first"):
+            str(pp(obj))
+            ctx.count("coloured_rendering_before_no_color")
+        # the no-colour OUTPUT is what is parsed back: str(), not plain_text() (which would hide
+        # escape sequences that leaked into a no-colour rendering)
+        txt = str(pp(obj, no_color=True))
+        lines = [str(l) for l in pp(obj, no_color=True)]
     except Exception as err:
         ctx.violation("printing-raises", {"type": type(err).__name__, "msg": str(err)[:150]}, case)
         return
@@ -229,7 +242,8 @@ def run_shard(ctx):
         rng = ctx.rng(i)
         for jm in (True, False):
             obj = wrap(rng, gen(rng, 0, jm), rng.choice([0, 0, 1, 2, 3, 5]))
-            judge(ctx, obj, jm, {"json_mode": jm, "value": obj})
+            judge(ctx, obj, jm, {"json_mode": jm, "value": obj, "coloured_first": rng.random() < 0.3,
+                                 "fresh_printer": rng.random() < 0.1})
             if i == 0:
                 ctx.sample({"json_mode": jm, "value": repr(obj)[:300]})
 
